@@ -2,14 +2,17 @@
 
 proof   : lean/GeosModel/Props/C11.lean — about the reader MODELS (WKB/HEX: Model/WKB/Read.lean, WKT: Model/WKT/Read.lean):
           totality (the fuel supplied is never exhausted), `reject_or_wf` / `wkt_reject_or_wf` (whatever is returned
-          satisfies every constructor invariant), depth and allocation bounds — and the NEGATIVE results
-          (`depth_unbounded`, `alloc_superlinear`, `wkt_depth_unbounded`): the "bounded stack" / "constant multiple of the
-          input" clauses are false of the model of the current code.  Memory safety of the models is by construction.
+          satisfies every constructor invariant), the depth bounds, the LINEAR allocation bound of the WKB reader model
+          (`alloc_linear`: at most 4 bytes per input byte, every input, no depth hypothesis; child vectors grow by the children
+          actually read since /repo a208e3db7) — and the NEGATIVE results (`depth_unbounded`, `wkt_depth_unbounded`): the
+          "bounded stack" clause is false of the model of the current code.  Memory safety of the models is by construction.
 support : everything about the real C++ is runtime evidence (harness/c11.cpp):
             wkb-fuzz, hex-fuzz, wkt-fuzz, geojson-fuzz   ASan+UBSan+LSan build, every input in a forked child under
                 CPU / stack / heap limits; verdict class and decoded tree compared with the models (GeoJSON: crash-only)
-            witness families (release build)              the witnesses of the negative theorems and linear references,
-                run at sizes up to 1 MiB; stack-overflow thresholds and resource ratios measured
+            witness families (release build)              the witnesses of the negative theorems, the regression witness
+                `wkb-over` (nested over-claimed element counts: quadratic allocation before a208e3db7, `alloc_over_linear`
+                now; must stay inside the linear memory budget — a recurrence is a VIOLATION, the finding is recorded as
+                fixed) and linear references, run at sizes up to 1 MiB; stack-overflow thresholds and resource ratios measured
 A result `crash` / `hang` / `oom` / `leak` is something the property forbids outright: the input is shrunk and reported
 with a signature.  A verdict/tree mismatch without a crash is a broken tie, unless the implementation returned a tree
 that violates the constructor invariants (then that input is the failing input)."""
@@ -104,8 +107,8 @@ def signature_of(case, impl):
     res = model_resource(case)
     if kind == "crash" and len(head) > 1 and head[1].startswith("stack-overflow") and res["depth"] >= DEEP:
         return {"reader": rd, "class": "stack-overflow-deep-nesting"}, res
-    if kind in ("oom", "hang") and rd == "wkb" and res["alloc"] // 1024 > rss_budget_kb(res["len"]):
-        return {"reader": rd, "class": "superlinear-allocation"}, res
+    # (no model-based "superlinear-allocation" class any more: the model's accounting is linear, `alloc_linear`, so an
+    #  oom of the WKB reader is never explained by the model and is reported under its own oom signature)
     if kind == "hang" and res["depth"] >= DEEP:
         return {"reader": rd, "class": "superlinear-time-deep-nesting"}, res
     cls = head[1] if kind == "crash" and len(head) > 1 else kind
@@ -339,10 +342,16 @@ def nest_family(exe, fam, per_level, fixed, moderate, quick):
 
 
 def over_family(exe, quick):
-    out = {"family": "wkb-over"}
+    """regression witness of the fixed finding wkb/superlinear-allocation (/repo a208e3db7): k nested collections, each claiming
+    remaining/9 elements (9 k bytes).  With child vectors sized from the claimed count the reader took 4 k (k - 1) bytes
+    (k = 4000: 36 KB -> 67 MB); now it must stay inside the linear budget at every k up to kbig.  When it does not, the least
+    such k is bisected and reported (a VIOLATION: the signature is listed as fixed, not as known)."""
+    out = {"family": "wkb-over", "expected": "linear: peak RSS growth <= 256 x input + 16 MiB (model: alloc_over_linear, <= 36 k bytes charged)"}
     kbig = 4000 if quick else 11000
     r = probe(exe, "wkb-over", kbig)
     out["at_k"] = r
+    out["rss_budget_kb_at_k"] = rss_budget_kb(r["len"])
+    out["rss_bytes_per_input_byte_at_k"] = round(r["rss_grow_kb"] * 1024.0 / max(1, r["len"]), 1)
 
     def over(k):
         p = probe(exe, "wkb-over", k)
@@ -423,10 +432,12 @@ def run_witnesses(ctx, exe_rel, quick, seen):
     if r.get("budget_exceeded_from_k"):
         p = r["at_threshold"]
         report({"reader": "wkb", "class": "superlinear-allocation"},
-               "wkb reader: %d nested collections each claiming remaining/9 elements (%d bytes) make the reader take %d KiB (budget 256 x input + 16 MiB = %d KiB); at k = %d: %d KiB" %
+               "wkb reader (regression of the fix a208e3db7): %d nested collections each claiming remaining/9 elements (%d bytes) make the reader take %d KiB (budget 256 x input + 16 MiB = %d KiB); at k = %d: %d KiB" %
                (r["budget_exceeded_from_k"], p["len"], p["rss_grow_kb"], rss_budget_kb(p["len"]), r["at_k"]["param"], r["at_k"]["rss_grow_kb"]),
-               {"family": "wkb-over", "param": r["budget_exceeded_from_k"], "len": p["len"], "impl": "peak RSS growth %d KiB, class %s" % (p["rss_grow_kb"], p["class"]),
-                "budget_kb": rss_budget_kb(p["len"]), "theorem": "alloc_superlinear: allocOf (over k) >= 4 k (k - 1) on 9 k bytes"})
+               {"family": "wkb-over", "param": min(r["at_k"]["param"], r["budget_exceeded_from_k"] * 5 // 4), "threshold_k": r["budget_exceeded_from_k"], "len": p["len"], "impl": "peak RSS growth %d KiB, class %s" % (p["rss_grow_kb"], p["class"]),
+                "budget_kb": rss_budget_kb(p["len"]),
+                "theorem": "alloc_linear / alloc_over_linear hold of the model of the fixed code (<= 4 bytes charged per input byte, <= 36 k on this family): "
+                           "the implementation no longer behaves like the model - child vectors are sized from the claimed element count again?"})
     for fam in ("wkb-wide", "wkt-wide", "geojson-wide", "wkt-longnum", "geojson-array"):
         p = res[fam]
         bad = p["class"] in ("crash", "hang", "oom", "leak", "probe-failed") or p["rss_grow_kb"] > p["rss_budget_kb"] or (p.get("cpu_read_s", -1) > p["cpu_budget_s"])
@@ -440,7 +451,8 @@ def run_witnesses(ctx, exe_rel, quick, seen):
 
 
 def witness_tie(ctx, exe_rel):
-    """the C++ witness families are, byte for byte / token for token, the Lean witnesses of the negative theorems"""
+    """the C++ witness families are, byte for byte / token for token, the Lean witness families (negative depth theorems;
+    wkb-over: regression witness of alloc_over_linear)"""
     lines = []
     for fam in ("wkb-nest", "wkb-over", "hex-nest", "wkt-nest"):
         for d in (0, 1, 2, 17, 300):
@@ -450,7 +462,7 @@ def witness_tie(ctx, exe_rel):
     bad = [l[:60] for l, g in zip(lines, got) if g != "same"] if got else ["driver failed"]
     ctx.cov["witness_families_equal_lean_witnesses"] = {"checked": len(lines), "differ": bad}
     if bad:
-        ctx.violation("the harness' witness families are not the Lean witnesses of depth_unbounded / alloc_superlinear / wkt_depth_unbounded: %s" % bad[:3],
+        ctx.violation("the harness' witness families are not the Lean witnesses of depth_unbounded / alloc_over_linear / wkt_depth_unbounded: %s" % bad[:3],
                       {"kind": "tie-broken", "correspondence": "witness-eq", "differ": bad}, nofail=True)
 
 
@@ -499,7 +511,7 @@ def run(ctx):
     pool = ThreadPoolExecutor(max_workers=1)
     wit_future = pool.submit(run_witnesses, ctx, exe_r, quick, seen)
     shards = max(4, min(verif.NPROC - 2, 14))
-    n = 16000 if quick else 100000
+    n = 16000 if quick else 45000
     maxlen = 65536 if quick else MIB
     corr = {}
     for stream in STREAMS:
